@@ -77,6 +77,12 @@ def impl(case):
         c = CircuitTemplate("c", nodes=nodes, edges=edges)
         # the documented `decorator=` option of run() / get_run_func(): a pass-through wrapper must not change anything (in particular
         # it must not make the vector field run an extra time: the ring buffers of discrete delays are its only state)
+        # backend: default (numpy) or Fortran (f2py build, needs /venv/bin on PATH; a file name of its own per circuit: a second
+        # Fortran build under one name in one process would hand back the first routine)
+        backend_kw = {"backend": "default"}
+        if case.get("backend") == "fortran":
+            import hashlib
+            backend_kw = {"backend": "fortran", "file_name": "f" + hashlib.sha1(json.dumps(case, sort_keys=True).encode()).hexdigest()[:10]}
         deco_kw = {}
         if case.get("decorator"):
             def passthrough(f, tag=None):
@@ -91,8 +97,8 @@ def impl(case):
             kw.update(rtol=1e-10, atol=1e-12)
         try:
             r = c.run(simulation_time=case["steps"] * dt, step_size=dt, solver=case.get("solver", "euler"), outputs=outs,
-                      vectorize=case["vectorize"], float_precision="float64", backend="default", clear=True, verbose=False,
-                      in_place=False, **kw, **deco_kw)
+                      vectorize=case["vectorize"], float_precision="float64", clear=True, verbose=False,
+                      in_place=False, **backend_kw, **kw, **deco_kw)
         except (IndexError, ValueError, KeyError, TypeError, AttributeError, NameError, PyRatesException) as e:
             return {"raised": type(e).__name__, "msg": str(e)[:160]}
         cols = [f"n{i}" for i in range(len(case["nodes"]))] + [f"tap{j}" for j in range(len(case.get("taps", [])))]
@@ -653,6 +659,12 @@ def check(ctx):
         cases += [gen_case(ctx.rng, "valid") for _ in range(n_valid)]
         cases += [gen_case(ctx.rng, "chains") for _ in range(n_valid // 5)]
         cases += [gen_case(ctx.rng, "scaled") for _ in range(n_valid // 4)]
+        for _ in range(1 if ctx.tier == "quick" else 8):          # gamma chains on backend='fortran'
+            while True:
+                c = gen_case(ctx.rng, "valid")
+                if not (c.get("taps") or c.get("twins") or c.get("decorator") or c.get("int_edges")) and any(e[3] != "nokey" for e in c["edges"]):
+                    break
+            cases.append(dict(c, vectorize=False, backend="fortran"))
         for kind in ("plain", "dde", "kernel", "shared", "perm", "tap", "intdelay", "mixkeys", "twin", "mixkinds", "mixkinds", "subthreshold", "subthreshold"):
             cases += [gen_case(ctx.rng, kind) for _ in range(n_viol)]
         cases += [gen_conn(ctx.rng) for _ in range(n_valid * 2 // 5)]
@@ -715,7 +727,7 @@ def check(ctx):
                    show=lambda c: dict(implementation_output=fails(ctx, c, "show")[1], model_output=model_outputs(ctx, c, "show")))
     nt = {canon(c) for i, c in enumerate(cases) if nontrivial(c) and i in in_guard}
     orders = sorted({rhe((Fr(e[3][0]) / Fr(e[3][1])) ** 2) for c in cases for e in c["edges"] if e[3] != "nokey" and len(e[3]) == 2})
-    hist = dict(with_decorator=sum(1 for c in cases if c.get("decorator")), time_scales=sorted({c.get("scale", 0) for c in cases}), adaptive_stream=len(acases), with_taps=sum(1 for c in cases if c.get("taps")), int_delays=sum(1 for c in cases if c.get("int_edges") or c.get("int_conn")),
+    hist = dict(fortran_backend=sum(1 for c in cases if c.get("backend") == "fortran"), with_decorator=sum(1 for c in cases if c.get("decorator")), time_scales=sorted({c.get("scale", 0) for c in cases}), adaptive_stream=len(acases), with_taps=sum(1 for c in cases if c.get("taps")), int_delays=sum(1 for c in cases if c.get("int_edges") or c.get("int_conn")),
                 connectivity=len(ci), connectivity_multi=sum(1 for i in ci if len(cases[i]["conns"]) > 1),
                 connectivity_same_delay_other_spread=sum(1 for i in ci if any(a["d"] == b["d"] and a["s"] != b["s"] for a in cases[i]["conns"] for b in cases[i]["conns"])), vectorized=sum(1 for c in cases if c["vectorize"]), dde_approx=sorted({c.get("dde", 0) for c in cases}),
                 in_guard=len(in_guard), guard_violating={g: len(gfalse[g]) for g in GUARDS}, orders=orders,
